@@ -104,6 +104,9 @@ public:
     // Load the binary file.
     std::streampos fileSize;
     std::ifstream file(filename, std::ios::binary);
+    if (!file) {
+      throw std::runtime_error(std::string("could not open file ")+filename);
+    }
 
     // Get length of file.
     file.seekg(0, std::ios::end);
@@ -113,9 +116,15 @@ public:
     // Check the file length matches.
     unsigned remainingFileSize = static_cast<unsigned>(fileSize) - 4;
     remainingFileSize = (remainingFileSize + 3U) & ~3U; // Round up to multiple of 4.
-    unsigned programSize;
+    unsigned programSize = 0;
     file.read(reinterpret_cast<char*>(&programSize), 4);
+    if (!file) {
+      throw std::runtime_error("binary has no header");
+    }
     programSize <<= 2;
+    if (programSize > memory.size() * sizeof(uint32_t)) {
+      throw std::runtime_error("program is larger than the memory");
+    }
     //if (programSize != remainingFileSize) {
     //  std::cerr << boost::format("Warning: mismatching program size %d != %d\n")
     //                 % programSize % remainingFileSize;
@@ -126,32 +135,43 @@ public:
 
     // Read debug data (if present).
     if (remainingFileSize > programSize) {
+      // A table that ends before it is complete is an error.
+      auto checkRead = [&file]() {
+        if (!file) {
+          throw std::runtime_error("malformed debug information");
+        }
+      };
       // Strings.
-      uint32_t numStrings;
+      uint32_t numStrings = 0;
       file.read(reinterpret_cast<char*>(&numStrings), sizeof(uint32_t));
+      checkRead();
       //std::cout << std::to_string(numStrings) << " strings\n";
       std::vector<std::string> strings;
       for (size_t i=0; i<numStrings; i++) {
         char c = file.get();
+        checkRead();
         std::string s;
         while (c != '\0') {
           s += c;
           c = file.get();
+          checkRead();
         }
         strings.push_back(s);
       }
       // Symbols
-      uint32_t numSymbols;
+      uint32_t numSymbols = 0;
       file.read(reinterpret_cast<char*>(&numSymbols), sizeof(uint32_t));
+      checkRead();
       //std::cout << std::to_string(numSymbols) << " symbols\n";
       for (size_t i=0; i<numSymbols; i++) {
-        uint32_t strIndex;
-        uint32_t byteOffset;
+        uint32_t strIndex = 0;
+        uint32_t byteOffset = 0;
         file.read(reinterpret_cast<char*>(&strIndex), sizeof(uint32_t));
         file.read(reinterpret_cast<char*>(&byteOffset), sizeof(uint32_t));
+        checkRead();
         //std::cout << "symbol " << strings[strIndex] << " " << std::to_string(byteOffset) << "\n";
-        debugInfo.push_back(std::make_pair(strings[strIndex], byteOffset));
-        debugInfoMap[strings[strIndex]] = byteOffset;
+        debugInfo.push_back(std::make_pair(strings.at(strIndex), byteOffset));
+        debugInfoMap[strings.at(strIndex)] = byteOffset;
       }
     }
 
